@@ -525,6 +525,10 @@ def inline_value_helpers(model, module, fn, names=None, skip=()):
         nonlocal changed
         out = []
         for s_ in stmts:
+            if isinstance(s_, ast.AnnAssign) and s_.value is not None and isinstance(s_.target, ast.Name):
+                s2_ = ast.Assign(targets=[s_.target], value=s_.value)       # `X: T = h(...)` reads as `X = h(...)`
+                ast.copy_location(s2_, s_)
+                s_ = s2_
             if isinstance(s_, ast.Assign) and len(s_.targets) == 1 and isinstance(s_.targets[0], ast.Name) and isinstance(s_.value, ast.Call) \
                     and isinstance(s_.value.func, ast.Name) and not s_.value.keywords and (names is None or s_.targets[0].id in names):
                 r_ = model.resolve_expr(module, s_.value.func)
